@@ -1,6 +1,552 @@
-//! C45 — not implemented yet.
+//! C45 — Gathered tables carry every column the statement reads.
+//!
+//! Generator: 2–4 Parquet tables (optionally with mixed-case names that must be
+//! quoted), a cluster of 1–4 participants, and a gather-path statement: the
+//! full `sqlgen` grammar (joins, filters on non-projected columns, subqueries,
+//! CTEs, derived tables, set operations, DISTINCT, self-joins by construction of
+//! the FROM generator) plus, added here: window functions, `SELECT *` / `t.*`,
+//! and subquery predicates / scalar subquery items over a table that appears
+//! ONLY inside the subquery (uncorrelated, correlated, and under OR so that it
+//! cannot be unnested into a join).
+//! Oracle: (1) `plan_gather` must plan every statement the single node answers;
+//! (2) every (table, column) the BOUND statement references — found by a
+//! harness walker over the bound `LogicalPlan` including the plans inside
+//! subquery expressions — is listed in the matching `GatherTable.columns` (or
+//! that is `None`), and every referenced table is gathered; (3)
+//! `execute_gathered` over the in-process transport binds, runs and returns
+//! `ctx.sql`'s answer (multiset; ORDER BY/LIMIT judged as in C09).
+use super::c09::cluster::*;
+use super::c09::{first_select, order_keys};
 use super::Property;
+use crate::data::*;
+use crate::engine::{panic_text, run_sql};
+use crate::refsql;
+use crate::runner::*;
+use crate::sqlast::*;
+use crate::sqlgen::*;
+use proptest::prelude::*;
+use serde::{Deserialize, Serialize};
+use std::collections::{BTreeMap, BTreeSet};
+
+#[derive(Clone, Debug, Serialize, Deserialize)]
+pub struct GatherCase {
+    pub tables: Vec<PqTable>,
+    /// table and column names are mixed-case; the statement quotes them
+    pub quoted: bool,
+    pub cluster: ClusterSpec,
+    pub query: Query,
+    pub features: Vec<String>,
+}
+
+const PLAIN_T: [&str; 4] = ["r", "s", "u", "v"];
+const MIXED_T: [&str; 4] = ["Rt", "sT", "U1", "vv"];
+const MIXED_C: [&str; 4] = ["Aa", "bB", "C", "dd"];
+
+fn q_ident(s: &str) -> String {
+    format!("\"{}\"", s)
+}
+
+fn tables4(max_rows: usize) -> BoxedStrategy<Vec<PqTable>> {
+    let tp = TableProfile { max_cols: 4, max_rows, ..TableProfile::default() };
+    (2usize..=4)
+        .prop_flat_map(move |n| {
+            let tp = tp.clone();
+            ((0..n).map(|i| table_strategy(PLAIN_T[i].to_string(), tp.clone())).collect::<Vec<_>>(), proptest::collection::vec(tiny_layout_strategy(max_rows), n))
+        })
+        .prop_map(|(ts, ls)| ts.into_iter().zip(ls).map(|(table, layout)| PqTable { table, layout }).collect())
+        .boxed()
+}
+
+/// (alias, table index) of the base tables in the FROM of a block
+fn from_tables(sel: &Select, cat_names: &[String]) -> Vec<(String, usize)> {
+    fn go(f: &From, names: &[String], out: &mut Vec<(String, usize)>) {
+        match f {
+            From::Table { name, alias } => {
+                if let Some(i) = names.iter().position(|n| n == name) {
+                    out.push((alias.clone().unwrap_or_else(|| name.clone()), i));
+                }
+            }
+            From::Join { l, r, .. } => {
+                go(l, names, out);
+                go(r, names, out);
+            }
+            From::Derived { .. } => {}
+        }
+    }
+    let mut out = vec![];
+    for f in &sel.from {
+        go(f, cat_names, &mut out);
+    }
+    out
+}
+
+/// Add a subquery over a table that the enclosing block does not mention.
+fn add_foreign_subquery(q: &mut Query, cat: &Catalog, t: &mut Tape, features: &mut Vec<String>) {
+    let names: Vec<String> = cat.rels.iter().map(|r| r.0.clone()).collect();
+    let SetExpr::Select(sel) = &mut q.body else { return };
+    let outer = from_tables(sel, &names);
+    if outer.is_empty() {
+        return;
+    }
+    let used: BTreeSet<usize> = outer.iter().map(|o| o.1).collect();
+    let foreign: Vec<usize> = (0..names.len()).filter(|i| !used.contains(i)).collect();
+    if foreign.is_empty() {
+        return;
+    }
+    let fi = foreign[t.pick(foreign.len())];
+    let (fname, fcols) = &cat.rels[fi];
+    let fa = "fq";
+    let (oa, oi) = outer[t.pick(outer.len())].clone();
+    let ocols = &cat.rels[oi].1;
+    // type-compatible (outer col, foreign col) pairs
+    let mut pairs = vec![];
+    for (on, ot) in ocols {
+        for (fnm, ft) in fcols {
+            if (ot == ft || (ot.is_int() && ft.is_int())) && *ot != ColType::Bool && *ot != ColType::Double {
+                pairs.push((on.clone(), fnm.clone(), *ot));
+            }
+        }
+    }
+    let from = vec![From::Table { name: fname.clone(), alias: Some(fa.into()) }];
+    let fcol = |n: &str| Expr::qcol(fa, n);
+    let inner_filter = |t: &mut Tape| -> Option<Expr> {
+        if t.chance(50) {
+            let (n, ty) = &fcols[t.pick(fcols.len())];
+            Some(match ty {
+                ColType::Bool => Expr::IsNull { e: Box::new(fcol(n)), neg: true },
+                ColType::Str => Expr::bin(fcol(n), BinOp::Ge, Expr::Lit(Value::Str("a".into()))),
+                ColType::Date => Expr::bin(fcol(n), BinOp::Ge, Expr::Lit(Value::Date(10957))),
+                ColType::Double => Expr::bin(fcol(n), BinOp::Le, Expr::Lit(Value::Double(1.0))),
+                _ => Expr::bin(fcol(n), BinOp::Le, Expr::int(3)),
+            })
+        } else {
+            None
+        }
+    };
+    let kind = t.pick(5);
+    let pred: Option<Expr> = match kind {
+        0 | 1 if !pairs.is_empty() => {
+            // x IN (SELECT col FROM foreign [WHERE …])
+            let (on, fnm, _) = pairs[t.pick(pairs.len())].clone();
+            let w = inner_filter(t);
+            features.push("foreign_in_subquery".into());
+            Some(Expr::InSub { e: Box::new(Expr::qcol(&oa, &on)), q: Box::new(Query::select(Select::simple(vec![Item::Expr(fcol(&fnm), None)], from, w))), neg: false })
+        }
+        2 if !pairs.is_empty() => {
+            // correlated EXISTS
+            let (on, fnm, _) = pairs[t.pick(pairs.len())].clone();
+            let mut w = Expr::eq(fcol(&fnm), Expr::qcol(&oa, &on));
+            if let Some(x) = inner_filter(t) {
+                w = Expr::and(w, x);
+            }
+            features.push("foreign_exists_correlated".into());
+            features.push("correlated".into());
+            Some(Expr::Exists { q: Box::new(Query::select(Select::simple(vec![Item::Expr(Expr::int(1), None)], from, Some(w)))), neg: t.chance(30) })
+        }
+        3 => {
+            // uncorrelated EXISTS
+            let w = inner_filter(t);
+            features.push("foreign_exists".into());
+            Some(Expr::Exists { q: Box::new(Query::select(Select::simple(vec![Item::Expr(Expr::int(1), None)], from, w))), neg: false })
+        }
+        _ => {
+            // scalar COUNT(*) / MAX compared with a literal
+            let w = inner_filter(t);
+            features.push("foreign_scalar_subquery".into());
+            let ints: Vec<&(String, ColType)> = fcols.iter().filter(|c| c.1.is_int()).collect();
+            let agg = if ints.is_empty() || t.chance(50) { Expr::count_star() } else { Expr::agg(AggF::Max, fcol(&ints[t.pick(ints.len())].0)) };
+            let sq = Expr::Scalar(Box::new(Query::select(Select::simple(vec![Item::Expr(agg, None)], from, w))));
+            if t.chance(35) && sel.group == Group::None && !sel.distinct && matches!(q.order_by.len(), 0) {
+                // as a SELECT item instead of a predicate
+                features.push("subquery_in_select_list".into());
+                sel.items.push(Item::Expr(sq, Some("sq9".into())));
+                return;
+            }
+            Some(Expr::bin(sq, BinOp::Ge, Expr::int(t.pick(3) as i64)))
+        }
+    };
+    let Some(mut pred) = pred else { return };
+    if t.chance(35) {
+        // under OR: cannot be turned into a semi join
+        features.push("subquery_under_or".into());
+        let (n, _) = &ocols[t.pick(ocols.len())];
+        pred = Expr::bin(Expr::IsNull { e: Box::new(Expr::qcol(&oa, n)), neg: false }, BinOp::Or, pred);
+    }
+    features.push("foreign_subquery".into());
+    sel.where_ = Some(match sel.where_.take() {
+        Some(w) => Expr::and(w, pred),
+        None => pred,
+    });
+}
+
+fn add_star(q: &mut Query, t: &mut Tape, features: &mut Vec<String>, cat: &Catalog) {
+    if !q.order_by.is_empty() {
+        return;
+    }
+    let names: Vec<String> = cat.rels.iter().map(|r| r.0.clone()).collect();
+    let SetExpr::Select(sel) = &mut q.body else { return };
+    if sel.group != Group::None || sel.distinct || sel.items.iter().any(|i| matches!(i, Item::Expr(e, _) if e.contains_agg() || e.contains_win())) {
+        return;
+    }
+    let ft = from_tables(sel, &names);
+    if t.chance(50) || ft.is_empty() {
+        sel.items = vec![Item::Star];
+        features.push("select_star".into());
+    } else {
+        let (a, _) = ft[t.pick(ft.len())].clone();
+        sel.items.push(Item::QStar(a));
+        features.push("select_qualified_star".into());
+    }
+}
+
+fn add_window(q: &mut Query, t: &mut Tape, features: &mut Vec<String>) {
+    let SetExpr::Select(sel) = &mut q.body else { return };
+    if sel.distinct || sel.group != Group::None || sel.having.is_some() || sel.items.iter().any(|i| matches!(i, Item::Expr(e, _) if e.contains_agg()) || matches!(i, Item::Star | Item::QStar(_))) {
+        return;
+    }
+    let mut cols: Vec<Expr> = vec![];
+    let mut see = |e: &Expr| {
+        e.walk(&mut |x| {
+            if matches!(x, Expr::Col { rel: Some(_), .. }) && !cols.contains(x) {
+                cols.push(x.clone());
+            }
+        })
+    };
+    for it in &sel.items {
+        if let Item::Expr(e, _) = it {
+            see(e);
+        }
+    }
+    if let Some(w) = &sel.where_ {
+        see(w);
+    }
+    if cols.is_empty() {
+        return;
+    }
+    let c1 = cols[t.pick(cols.len())].clone();
+    let c2 = cols[t.pick(cols.len())].clone();
+    let call = match t.pick(3) {
+        0 => WindowCall { f: WinF::Rank, args: vec![], partition: if t.chance(50) { vec![c2] } else { vec![] }, order: vec![OrderKey { e: c1, desc: t.chance(40), nulls_first: None }], frame: None },
+        1 => WindowCall { f: WinF::Count, args: vec![], partition: vec![c1], order: vec![], frame: None },
+        _ => WindowCall { f: WinF::Count, args: vec![c2], partition: vec![c1], order: vec![], frame: None },
+    };
+    sel.items.push(Item::Expr(Expr::Win(Box::new(call)), Some("wf_out".into())));
+    features.push("window".into());
+}
+
+fn case_strategy(tier: Tier) -> BoxedStrategy<GatherCase> {
+    let max_rows = tier.pick(14, 40);
+    (tables4(max_rows), any::<bool>(), cluster_strategy(4), proptest::collection::vec(any::<u16>(), 0..200), proptest::collection::vec(any::<u16>(), 24))
+        .prop_map(|(mut tables, quoted_sel, cluster, tape, xtape)| {
+            // the catalogue the generator sees: quoted spellings when `quoted`
+            let quoted = quoted_sel && tables.len() <= 4;
+            let mut cat = Catalog { rels: vec![] };
+            for (i, t) in tables.iter_mut().enumerate() {
+                if quoted {
+                    t.table.name = MIXED_T[i].to_string();
+                    for (j, c) in t.table.cols.iter_mut().enumerate() {
+                        c.name = MIXED_C[j % 4].to_string();
+                    }
+                    cat.rels.push((q_ident(&t.table.name), t.table.cols.iter().map(|c| (q_ident(&c.name), c.ty)).collect()));
+                } else {
+                    cat.rels.push((t.table.name.clone(), t.table.cols.iter().map(|c| (c.name.clone(), c.ty)).collect()));
+                }
+            }
+            let mut profile = Profile::full();
+            profile.max_from = 2;
+            let mut g = Gen::new(tape, &profile);
+            let (mut query, _) = g.query(&cat, 2);
+            let mut features: Vec<String> = g.features.iter().map(|s| s.to_string()).collect();
+            let mut t = Tape::new(xtape);
+            if t.chance(45) {
+                add_foreign_subquery(&mut query, &cat, &mut t, &mut features);
+            }
+            if t.chance(15) {
+                add_window(&mut query, &mut t, &mut features);
+            }
+            if t.chance(12) {
+                add_star(&mut query, &mut t, &mut features, &cat);
+            }
+            if quoted {
+                features.push("quoted_identifiers".into());
+            }
+            GatherCase { tables, quoted, cluster, query, features }
+        })
+        .boxed()
+}
+
+// ---------------------------------------------------------------------------
+
+fn contains_subquery_expr(q: &Query) -> bool {
+    let s = q.sql();
+    s.contains("EXISTS (") || s.contains("IN (SELECT") || s.contains("(SELECT")
+}
+
+/// Known-finding classes of C45.
+fn classify(c: &GatherCase, reads: Option<&Reads>, msg: &str) -> Option<&'static str> {
+    let not_found = msg.contains("not found") || msg.contains("NotFound");
+    // collect_scans does not descend into subquery expressions: a table (or a
+    // column) read only inside a subquery expression that the optimizer leaves
+    // in place is not gathered
+    if let Some(r) = reads {
+        let only_in_sub = r.tables.values().any(|(main, sub)| *sub && !*main) || r.cols.values().any(|(o, f, s)| *s && !*o && !*f);
+        if only_in_sub && contains_subquery_expr(&c.query) && (msg.contains("[coverage]") || not_found) {
+            return Some("gather-misses-subquery-expression-scans");
+        }
+    }
+    // a column the statement names outside any subquery but the optimized plan no longer reads
+    // (its predicate / expression was folded to a constant): not gathered, and the re-bound
+    // statement fails or answers differently
+    if msg.contains("[coverage]") && !msg.contains("is scanned by the bound statement but not gathered") {
+        if let Some(r) = reads {
+            if !(r.cols.values().any(|(o, f, s)| *s && !*o && !*f)) || !contains_subquery_expr(&c.query) {
+                return Some("gather-misses-columns-the-optimizer-eliminated");
+            }
+        }
+    }
+    // a CTE the statement never references is absent from the (bound and)
+    // optimized plan, but re-binding the statement text binds its body
+    if super::c09::unreferenced_cte(&c.query) && not_found {
+        return Some("gather-misses-unreferenced-cte-columns");
+    }
+    None
+}
+
+pub struct GatherCarriesColumns;
+
+impl Check for GatherCarriesColumns {
+    type Case = GatherCase;
+    fn name(&self) -> &'static str {
+        "gather_columns"
+    }
+    fn rule(&self) -> &'static str {
+        "single node answered, plan_gather planned, and the bound statement reads some base column only in a filter/join/sort position or only inside a subquery expression"
+    }
+    fn cases(&self, tier: Tier) -> u32 {
+        tier.pick(500, 15_000)
+    }
+    fn max_shrink_iters(&self) -> u32 {
+        600
+    }
+    fn strategy(&self, tier: Tier) -> BoxedStrategy<GatherCase> {
+        case_strategy(tier)
+    }
+    fn test(&self, c: &GatherCase, obs: &mut Obs) -> Verdict {
+        let sql = c.query.sql();
+        let cl = match Cluster::build("c45", &c.tables, &c.cluster) {
+            Ok(cl) => cl,
+            Err(e) => return Verdict::Discard(format!("cluster:{}", crate::sqlcheck::short_err(&e))),
+        };
+        for f in &c.features {
+            obs.label(format!("feat:{}", f));
+        }
+        obs.label(format!("nodes:{}", c.cluster.normalized().nodes));
+        obs.label(format!("tables:{}", c.tables.len()));
+        obs.sample(serde_json::json!({"sql": sql, "nodes": c.cluster.nodes}));
+        let single = match run_sql(&cl.base, &sql) {
+            Ok(r) => r,
+            Err(e) => {
+                obs.label(format!("single_error:{}", crate::sqlcheck::short_err(&e)));
+                return Verdict::Pass;
+            }
+        };
+        let ctx_msg = |what: &str| format!("{}\n sql: {}\n cluster: {:?}\n tables: {}", what, sql, c.cluster.normalized(), crate::sqlcheck::fmt_tables(&c.tables.iter().map(|t| t.table.clone()).collect::<Vec<_>>()));
+        let bound = match std::panic::catch_unwind(std::panic::AssertUnwindSafe(|| cl.base.logical_plan(&sql))) {
+            Ok(Ok(p)) => p,
+            _ => return Verdict::Discard("bound_plan_unavailable".into()),
+        };
+        let reads = reads_of(&bound, &c.tables);
+        let filter_only = reads.cols.values().filter(|(o, f, s)| !*o && (*f || *s)).count();
+        let sub_only = reads.cols.values().filter(|(o, f, s)| *s && !*o && !*f).count();
+        if sub_only > 0 {
+            obs.label("column_read_only_in_subquery");
+        } else if filter_only > 0 {
+            obs.label("column_read_only_in_filter");
+        }
+        if reads.tables.values().any(|(m, s)| *s && !*m) {
+            obs.label("table_only_in_subquery_expression");
+        }
+        let plan = match std::panic::catch_unwind(std::panic::AssertUnwindSafe(|| query_engine::distributed::plan_gather(&cl.base, &sql))) {
+            Ok(Ok(p)) => p,
+            Ok(Err(query_engine::QueryError::NotImplemented(m))) => {
+                obs.label(format!("plan_gather_refused:{}", crate::sqlcheck::short_err(&m)));
+                return Verdict::Pass;
+            }
+            Ok(Err(e)) => {
+                let msg = ctx_msg(&format!("the single node answers ({} rows) but plan_gather fails: {}", single.len(), e));
+                return known_or_fail(c, Some(&reads), msg);
+            }
+            Err(p) => return Verdict::Fail(ctx_msg(&format!("plan_gather PANICS: {}", panic_text(p)))),
+        };
+        obs.nontrivial(filter_only > 0);
+        // (2) coverage
+        let missing = gaps_of(&reads, &plan);
+        let gathered = plan.tables.iter().map(|g| format!("{}{:?}", g.name, g.columns)).collect::<Vec<_>>().join(" ");
+        // (3) execution
+        let tr = cl.transport(vec![]);
+        let exec = run_gathered(&cl, &plan, &tr);
+        if !missing.is_empty() {
+            // A column the text mentions but the optimizer proved irrelevant (a predicate folded
+            // to a constant) may be absent without consequence: the property's claim is that the
+            // statement binds over the gathered tables and gives the single-node answer. A gap
+            // is a violation when that claim fails.
+            let harmless = match &exec {
+                DistOutcome::Ok(d) => c.query.limit.is_none() && c.query.offset.is_none() && multiset_eq(&single, &batches_to_rows(&d.result.batches), 1e-9),
+                _ => false,
+            };
+            if harmless {
+                obs.label("coverage_gap_without_consequence");
+                return Verdict::Pass;
+            }
+            let how = match &exec {
+                DistOutcome::Ok(d) => format!("execute_gathered answered {} rows, the single node {}", d.result.row_count, single.len()),
+                DistOutcome::Err(e) | DistOutcome::NotImplemented(e) => format!("execute_gathered: {}", e),
+                DistOutcome::Panic(p) => format!("execute_gathered PANIC: {}", p),
+            };
+            let msg = ctx_msg(&format!("[coverage] {}\n gathered: {}\n {}", missing.join("; "), gathered, how));
+            return known_or_fail(c, Some(&reads), msg);
+        }
+        let d = match exec {
+            DistOutcome::Ok(d) => d,
+            DistOutcome::NotImplemented(m) => {
+                obs.label(format!("execute_gathered_refused:{}", crate::sqlcheck::short_err(&m)));
+                return Verdict::Pass;
+            }
+            DistOutcome::Err(e) => {
+                let msg = ctx_msg(&format!("the single node answers ({} rows) but execute_gathered fails: {}\n gathered: {}", single.len(), e, gathered));
+                if classify(c, Some(&reads), &msg).is_none() && same_as_local_over_memory(c, &Err(e.clone())) {
+                    // nothing was lost by gathering: one node fails the same way over in-memory
+                    // copies of the complete tables (the local engine's layout dependence is
+                    // C09's / C04's finding, not a missing column)
+                    obs.label("local_engine_differs_over_memory_tables:error");
+                    return Verdict::Pass;
+                }
+                return known_or_fail(c, Some(&reads), msg);
+            }
+            DistOutcome::Panic(p) => return Verdict::Fail(ctx_msg(&format!("execute_gathered PANICS: {}\n gathered: {}", p, gathered))),
+        };
+        let dist = batches_to_rows(&d.result.batches);
+        let tol = 1e-9;
+        let cmp: Result<(), String> = if c.query.order_by.is_empty() && c.query.limit.is_none() && c.query.offset.is_none() {
+            if multiset_eq(&single, &dist, tol) {
+                Ok(())
+            } else {
+                Err("row multisets differ".into())
+            }
+        } else {
+            match order_keys(&c.query) {
+                None => {
+                    if c.query.limit.is_none() && c.query.offset.is_none() {
+                        if multiset_eq(&single, &dist, tol) {
+                            Ok(())
+                        } else {
+                            Err("row multisets differ".into())
+                        }
+                    } else {
+                        return Verdict::Discard("limit_with_unresolved_order".into());
+                    }
+                }
+                Some(keys) => {
+                    let full = if c.query.limit.is_none() && c.query.offset.is_none() {
+                        single.clone()
+                    } else {
+                        let mut q2 = c.query.clone();
+                        q2.limit = None;
+                        q2.offset = None;
+                        match run_sql(&cl.base, &q2.sql()) {
+                            Ok(r) => r,
+                            Err(e) => return Verdict::Discard(format!("single_unlimited:{}", crate::sqlcheck::short_err(&e))),
+                        }
+                    };
+                    let reference = ordered_reference(&full, &keys, c.query.limit, c.query.offset);
+                    if refsql::compare_answer(&reference, &single, tol).is_err() {
+                        return Verdict::Discard("single_inconsistent".into());
+                    }
+                    refsql::compare_answer(&reference, &dist, tol)
+                }
+            }
+        };
+        let _ = first_select(&c.query.body);
+        match cmp {
+            Ok(()) => Verdict::Pass,
+            Err(why) => {
+                // the gathered tables are complete (checked above): a different answer is the
+                // local engine disagreeing with itself over Parquet vs in-memory inputs — C09/C04's
+                // subject, not a missing column. Classified through the shared SQL signatures.
+                let plain: Vec<Table> = c.tables.iter().map(|t| t.table.clone()).collect();
+                // refsql resolves plain names: for the quoted variant evaluate the twin statement
+                // with the quotes removed (same tables, same names)
+                let ref_query: Query = if c.quoted {
+                    serde_json::to_string(&c.query).ok().and_then(|j| serde_json::from_str(&j.replace("\\\"", "")).ok()).unwrap_or_else(|| c.query.clone())
+                } else {
+                    c.query.clone()
+                };
+                let (events, opinion) = {
+                    let db = refsql::Db::new(&plain);
+                    match db.run(&ref_query) {
+                        Ok(r) => {
+                            let usable = !(r.sorted_full.is_none() && (r.limit.is_some() || r.offset.is_some()));
+                            let s_ok = usable && refsql::compare_answer(&r, &single, 1e-9).is_ok();
+                            let d_ok = usable && refsql::compare_answer(&r, &dist, 1e-9).is_ok();
+                            (db.events.borrow().clone(), format!("refsql agrees with single:{} gathered:{}", s_ok, d_ok))
+                        }
+                        Err(e) => (db.events.borrow().clone(), format!("refsql: {}", e)),
+                    }
+                };
+                let msg = ctx_msg(&format!(
+                    "gathered tables are complete, yet execute_gathered's answer differs from ctx.sql's: {}\n gathered: {}\n single ({} rows):\n{} gathered run ({} rows):\n{} {}",
+                    why,
+                    gathered,
+                    single.len(),
+                    fmt_rows(&single, 30),
+                    dist.len(),
+                    fmt_rows(&dist, 30),
+                    opinion
+                ));
+                if same_as_local_over_memory(c, &Ok(dist.clone())) {
+                    obs.label("local_engine_differs_over_memory_tables:answer");
+                    return Verdict::Pass;
+                }
+                let sc = SqlCase { tables: plain, query: ref_query.clone(), cuts: vec![], features: c.features.clone() };
+                match crate::kf_sql::classify_sql(&sc, &events, &msg) {
+                    Some(id) => Verdict::Known { id: id.to_string(), msg },
+                    None => Verdict::Fail(msg),
+                }
+            }
+        }
+    }
+}
+
+/// The outcome of `execute_gathered` is exactly what ONE node returns for the statement over
+/// in-memory copies of the complete tables: gathering lost nothing; the local engine answers
+/// differently over Parquet files and over in-memory tables (C04's subject).
+fn same_as_local_over_memory(c: &GatherCase, dist: &Result<Rows, String>) -> bool {
+    let plain: Vec<Table> = c.tables.iter().map(|t| t.table.clone()).collect();
+    let ctx = crate::engine::mem_ctx(&plain);
+    let mem = run_sql(&ctx, &c.query.sql());
+    match (dist, &mem) {
+        (Ok(d), Ok(m)) => multiset_eq(d, m, 1e-9),
+        (Err(d), Err(m)) => crate::sqlcheck::short_err(d) == crate::sqlcheck::short_err(m) || d.contains(m.as_str()),
+        _ => false,
+    }
+}
+
+fn known_or_fail(c: &GatherCase, reads: Option<&Reads>, msg: String) -> Verdict {
+    match classify(c, reads, &msg) {
+        Some(id) => Verdict::Known { id: id.to_string(), msg },
+        None => Verdict::Fail(msg),
+    }
+}
 
 pub fn property() -> Property {
-    Property { id: "C45", level: "exploration", assumptions: &[], checks: vec![] }
+    Property {
+        id: "C45",
+        level: "exploration",
+        assumptions: &[
+            "the walker resolves a column reference to a base table through the relation alias recorded on the bound Scan nodes (generated aliases are unique per statement); unresolvable or ambiguous references are skipped, never guessed",
+            "execute_gathered runs over the in-process transport (same or byte-identical Parquet files on every participant)",
+            "a statement the single node cannot answer is outside the property",
+        ],
+        checks: vec![Box::new(GatherCarriesColumns)],
+    }
 }
